@@ -70,17 +70,17 @@ Section SetLaw.
   Definition so_offered (before : list Z) (so : sop) : list Z :=
     match so with SOp o => s_offered before o | SAssign _ vs => vs end.
 
-  Definition law_set_step (before : list Z) (so : sop) (ob : S.obs) : list Z :=
-    let same := seteq (S.o_after ob) before && is_nil (S.o_events ob) in
-    chk 1 (forallb dom (S.o_after ob))
-    ++ chk 3 (negb (s_is_trait_error (S.o_out ob)) || same)
-    ++ chk 4 (negb (s_is_raise (S.o_out ob)) || same)
-    ++ chk 5 (forallb acc (so_offered before so) || s_is_raise (S.o_out ob)).
+  Definition law_set_step (before : list Z) (so : sop) (ob : sobs) : list Z :=
+    let same := seteq (so_after ob) before && Nat.eqb (so_nev ob) 0 in
+    chk 1 (forallb dom (so_after ob))
+    ++ chk 3 (negb (s_is_trait_error (so_out ob)) || same)
+    ++ chk 4 (negb (s_is_raise (so_out ob)) || same)
+    ++ chk 5 (forallb acc (so_offered before so) || s_is_raise (so_out ob)).
 
-  Fixpoint law_set_hist (i : Z) (before : list Z) (h : list (sop * S.obs)) : list Z :=
+  Fixpoint law_set_hist (i : Z) (before : list Z) (h : list (sop * sobs)) : list Z :=
     match h with
     | [] => []
-    | (o, ob) :: r => lifted i (law_set_step before o ob) ++ law_set_hist (i + 1) (S.o_after ob) r
+    | (o, ob) :: r => lifted i (law_set_step before o ob) ++ law_set_hist (i + 1) (so_after ob) r
     end.
 End SetLaw.
 
@@ -104,17 +104,17 @@ Section DictLaw.
   Definition do_offered (before : amap) (o : dop) : list (Z * Z) :=
     match o with DOp o => d_offered before o | DAssign _ ps => update_all ps [] end.
 
-  Definition law_dict_step (before : amap) (o : dop) (ob : D.obs) : list Z :=
-    let same := mapeq (D.o_after ob) before && is_nil (D.o_events ob) in
-    chk 1 (dict_ok (D.o_after ob))
-    ++ chk 3 (negb (d_is_trait_error (D.o_out ob)) || same)
-    ++ chk 4 (negb (d_is_raise (D.o_out ob)) || same)
-    ++ chk 5 (forallb (fun p => kacc (fst p) && vacc (snd p)) (do_offered before o) || d_is_raise (D.o_out ob)).
+  Definition law_dict_step (before : amap) (o : dop) (ob : dobs) : list Z :=
+    let same := mapeq (do_after ob) before && Nat.eqb (do_nev ob) 0 in
+    chk 1 (dict_ok (do_after ob))
+    ++ chk 3 (negb (d_is_trait_error (do_out ob)) || same)
+    ++ chk 4 (negb (d_is_raise (do_out ob)) || same)
+    ++ chk 5 (forallb (fun p => kacc (fst p) && vacc (snd p)) (do_offered before o) || d_is_raise (do_out ob)).
 
-  Fixpoint law_dict_hist (i : Z) (before : amap) (h : list (dop * D.obs)) : list Z :=
+  Fixpoint law_dict_hist (i : Z) (before : amap) (h : list (dop * dobs)) : list Z :=
     match h with
     | [] => []
-    | (o, ob) :: r => lifted i (law_dict_step before o ob) ++ law_dict_hist (i + 1) (D.o_after ob) r
+    | (o, ob) :: r => lifted i (law_dict_step before o ob) ++ law_dict_hist (i + 1) (do_after ob) r
     end.
 End DictLaw.
 
